@@ -24,6 +24,9 @@ pub enum Op {
     /// answers exceed what the socket buffers, the client's writes have to wait for the reader
     #[serde(alias = "Burst")]
     Burst(u8),
+    /// like Burst, but the peer then does not read anything for this many seconds (its receive window stays closed
+    /// while the client is in the middle of writing an answer), and reads everything afterwards
+    BurstThenStall(u8, u8),
 }
 
 #[derive(Clone, Debug, Serialize, Deserialize)]
@@ -64,6 +67,7 @@ fn strategy() -> BoxedStrategy<Case> {
                 2 => Just(Op::ServeClient),
                 1 => Just(Op::UnchokeClient),
                 1 => (8u8..48).prop_map(Op::Burst),
+                1 => (24u8..48, prop_oneof![Just(3u8), Just(9), Just(11), Just(13), Just(25), 1u8..40]).prop_map(|(n, s)| Op::BurstThenStall(n, s)),
             ];
             let valid = (1u32..2, 0u32..8, 1u32..=32).prop_map(|(i, b, l)| Op::Request(i, b, l));
             (Just(pl), 1..=pl, prop_oneof![
@@ -86,6 +90,45 @@ fn strategy() -> BoxedStrategy<Case> {
             Case { have_only, piece_len, last_len, ops: pre, seed }
         })
         .boxed()
+}
+
+/// Decoder for the coverage-guided campaign (fuzz target fz_hist).
+pub fn case_from_bytes(data: &[u8]) -> Case {
+    let mut r = crate::gen::ByteReader::new(data);
+    let piece_len = r.pick(&[20000usize, 16384, 16385, 40000, 100]);
+    let last_len = 1 + (r.u16() as usize) % piece_len;
+    let seed = r.u16() as u64;
+    let have_only = seed % 4 == 3;
+    let mut ops = vec![];
+    while !r.done() && ops.len() < 40 {
+        let op = match r.below(16) {
+            0..=7 => {
+                let i = r.pick(&[0u32, 1, 1, 2, 3, 4, 255, 1 << 31, u32::MAX]);
+                let b = match r.below(4) {
+                    0 => 0,
+                    1 => r.u16() as u32 % (piece_len as u32 + 2),
+                    2 => r.pick(&[1u32, 16384, piece_len as u32 - 1, piece_len as u32, u32::MAX, u32::MAX - 16383, 1 << 31]),
+                    _ => (piece_len as u32).saturating_sub(r.u16() as u32 % 16385),
+                };
+                let l = match r.below(4) {
+                    0 => 1 + r.u8() as u32 % 64,
+                    1 => r.pick(&[0u32, 1, 16383, 16384, 16385, 32768, u32::MAX, 1 << 31]),
+                    2 => 1 + r.u16() as u32 % (piece_len as u32),
+                    _ => (piece_len as u32).saturating_sub(b).min(16384),
+                };
+                Op::Request(i, b, l)
+            }
+            8 => Op::Interested,
+            9 => Op::NotInterested,
+            10 | 11 => Op::Rotate,
+            12 | 13 => Op::ServeClient,
+            14 => Op::UnchokeClient,
+            15 if r.bool() => Op::BurstThenStall(24 + r.u8() % 24, 1 + r.u8() % 40),
+            _ => Op::Burst(8 + r.u8() % 40),
+        };
+        ops.push(op);
+    }
+    Case { have_only, piece_len, last_len, ops, seed }
 }
 
 struct Req {
@@ -160,8 +203,17 @@ pub fn check(c: &Case) -> Outcome {
                             classes.push("begin+length-wraps-u32");
                         }
                     }
-                    Op::Burst(cnt) => {
+                    Op::Burst(cnt) | Op::BurstThenStall(cnt, _) => {
                         let unchoked = !net.peers[p].view.client_chokes_us;
+                        if let Op::BurstThenStall(_, secs) = op {
+                            w.not_reading.insert(conn);
+                            if unchoked {
+                                classes.push("remote-stops-reading-mid-answer");
+                                if *secs > 10 {
+                                    classes.push("remote-stops-reading-for-more-than-10s");
+                                }
+                            }
+                        }
                         let plen = t2.geo.piece_length(1) as u32;
                         let l = plen.min(16384);
                         for j in 0..*cnt as u32 {
@@ -171,6 +223,10 @@ pub fn check(c: &Case) -> Outcome {
                         }
                         if unchoked && (*cnt as usize) * (l as usize) > 300_000 {
                             classes.push("answers-exceed-socket-buffer");
+                        }
+                        if let Op::BurstThenStall(_, secs) = op {
+                            w.advance_by(std::time::Duration::from_secs(*secs as u64)).await;
+                            w.not_reading.remove(&conn);
                         }
                     }
                     Op::ServeClient => {
@@ -286,14 +342,14 @@ pub fn check(c: &Case) -> Outcome {
 pub fn def() -> PropDef {
     PropDef {
         id: "C09",
-        rule: "the client downloads its pieces from an honest set-up peer (piece length from {100,16384,16385,20000,40000}, generated last-piece length; 2- and 3-piece torrents so that an owned piece is also the short last one); then one peer with a valid handshake (in a quarter of the cases announcing its piece by Have only, supplying it to the client and asking for it back although the client never unchoked it) sends a history of up to 30 ops: Request(index,begin,length) from an edge-biased u32^3 (valid ranges, ranges ending exactly at / one beyond the piece end, length 0/16384/16385/2^31/2^32-1, begin near 2^32 so that begin+length wraps, index of a piece the client lacks or beyond the piece count, switching between owned pieces), interested / not-interested, the manager's real choke rotation after 21 virtual seconds (so the client really chokes and unchokes this peer), and bursts of 8..47 back-to-back full-block requests that are not read until all are sent; in a third of the cases the client's end of the connection has a 4 KiB kernel send buffer, so that its writes are accepted piecemeal. Oracle: every Piece frame answers exactly one earlier unanswered request with the same index, offset and length, carries exactly those bytes of the stored piece, <= 16 KiB, inside the piece, for an owned piece, and that request was sent while the client's last word to the peer was Unchoke; no task or manager panic. Non-trivial = at least one answered valid request and one request that must not be answered; distinct by hash of the case.",
+        rule: "the client downloads its pieces from an honest set-up peer (piece length from {100,16384,16385,20000,40000}, generated last-piece length; 2- and 3-piece torrents so that an owned piece is also the short last one); then one peer with a valid handshake (in a quarter of the cases announcing its piece by Have only, supplying it to the client and asking for it back although the client never unchoked it) sends a history of up to 30 ops: Request(index,begin,length) from an edge-biased u32^3 (valid ranges, ranges ending exactly at / one beyond the piece end, length 0/16384/16385/2^31/2^32-1, begin near 2^32 so that begin+length wraps, index of a piece the client lacks or beyond the piece count, switching between owned pieces), interested / not-interested, the manager's real choke rotation after 21 virtual seconds (so the client really chokes and unchokes this peer), and bursts of 8..47 back-to-back full-block requests that are not read until all are sent; in a third of the cases the client's end of the connection has a 4 KiB kernel send buffer, so that its writes are accepted piecemeal; op BurstThenStall: after such a burst the remote reads nothing for 1-40 s (the client is blocked in the middle of writing an answer) and then reads everything. Oracle: every Piece frame answers exactly one earlier unanswered request with the same index, offset and length, carries exactly those bytes of the stored piece, <= 16 KiB, inside the piece, for an owned piece, and that request was sent while the client's last word to the peer was Unchoke; no task or manager panic. Non-trivial = at least one answered valid request and one request that must not be answered; distinct by hash of the case.",
         assumptions: &["requests are sent only after a quiescence barrier, so 'the client's last word' at the time a request is read is unambiguous"],
         subs: vec![Sub {
             name: "requests",
             cases: |t| t.pick(15_000, 200_000),
             run: |ctx| run_proptest(ctx, "requests", strategy(), check),
             replay: |v| replay_case::<Case>(v, check),
-            min_class: &[("valid-request-answered", 0.4), ("invalid-request-not-answered", 0.492), ("request-while-choked", 0.05), ("begin+length-wraps-u32", 0.0848), ("piece-switching", 0.03), ("rotation", 0.2207), ("client-choked-us", 0.03), ("peer-announced-by-have-only", 0.1), ("peer-supplied-a-block", 0.05), ("small-kernel-send-buffer", 0.15), ("answers-exceed-socket-buffer", 0.025)],
+            min_class: &[("valid-request-answered", 0.4), ("invalid-request-not-answered", 0.492), ("request-while-choked", 0.05), ("begin+length-wraps-u32", 0.0848), ("piece-switching", 0.03), ("rotation", 0.2207), ("client-choked-us", 0.03), ("peer-announced-by-have-only", 0.1), ("peer-supplied-a-block", 0.05), ("small-kernel-send-buffer", 0.15), ("answers-exceed-socket-buffer", 0.025), ("remote-stops-reading-for-more-than-10s", 0.035)],
         }],
     }
 }
